@@ -17,14 +17,32 @@
 #include <stdio.h>
 #include <string.h>
 
+#undef VF_FILE
+#define VF_FILE vf_edn_c
 #include "edn.c"
+#undef VF_FILE
+#define VF_FILE vf_arena_c
 #include "arena.c"
+#undef VF_FILE
+#define VF_FILE vf_simd_c
 #include "simd.c"
+#undef VF_FILE
+#define VF_FILE vf_string_c
 #include "string.c"
+#undef VF_FILE
+#define VF_FILE vf_number_c
 #include "number.c"
+#undef VF_FILE
+#define VF_FILE vf_character_c
 #include "character.c"
+#undef VF_FILE
+#define VF_FILE vf_identifier_c
 #include "identifier.c"
+#undef VF_FILE
+#define VF_FILE vf_symbolic_c
 #include "symbolic.c"
+#undef VF_FILE
+#define VF_FILE vf_equality_c
 #include "equality.c"
 /* count the scratch allocations of uniqueness.c (which strategy ran is visible only there) */
 #include <stdlib.h>
@@ -34,13 +52,27 @@ static void* ex_calloc(size_t a, size_t b) {
     return calloc(a, b);
 }
 #define calloc ex_calloc
+#undef VF_FILE
+#define VF_FILE vf_uniqueness_c
 #include "uniqueness.c"
 #undef calloc
+#undef VF_FILE
+#define VF_FILE vf_collection_c
 #include "collection.c"
+#undef VF_FILE
+#define VF_FILE vf_tagged_c
 #include "tagged.c"
+#undef VF_FILE
+#define VF_FILE vf_discard_c
 #include "discard.c"
+#undef VF_FILE
+#define VF_FILE vf_reader_c
 #include "reader.c"
+#undef VF_FILE
+#define VF_FILE vf_metadata_c
 #include "metadata.c"
+#undef VF_FILE
+#define VF_FILE vf_newline_finder_c
 #include "newline_finder.c"
 
 /* print a 256-entry predicate as a 256-bit hexadecimal mask, bit b = value for byte b */
